@@ -3,34 +3,79 @@ from vdriver import Job
 ID = "C16"
 LEVEL = "model_checking"
 MAIN = "c16"
-MODULES = ["geom", "stubs", "c16"]
 ACCESS = None
-DUMP = []
 PARALLEL = 8
 
+GEOM_STUBS = [
+    ("crate::chess::movegen::tables::magics::rook_attacks", "stubs::s_rook"),
+    ("crate::chess::movegen::tables::magics::bishop_attacks", "stubs::s_bishop"),
+    ("crate::chess::movegen::tables::knights::knight_attacks", "stubs::s_knight"),
+    ("crate::chess::movegen::tables::king::king_attacks", "stubs::s_king"),
+    ("crate::chess::movegen::tables::pawns::pawn_attacks", "stubs::s_pawn"),
+    ("crate::chess::movegen::tables::between::between", "stubs::s_between"),
+]
+
 META = {
-    "functions_encoded": ["engine::eval::phased_eval::PhasedEval::{new, midgame, endgame, for_phase, add, sub, neg}"],
-    "stubs": [],
-    "bounds": ["game phase in [0, 88] (nine queens, two rooks, two bishops, two knights a side)", "all i16 (mg, eg) pairs that can be packed"],
-    "outside": [],
-    "assumptions": [],
-    "trusted_base": ["kani 0.68.0", "cbmc 6.11.0", "cadical"],
-    "explanation": "see MANIFEST level text",
+    "functions_encoded": ["engine::eval::phased_eval::PhasedEval::{new, midgame, endgame, for_phase, add, sub, neg}, phase_value, piece_phase_value_contribution",
+                          "engine::eval::piece_square_tables::{eval, piece_contributions}", "engine::eval::material::{eval, bishop_pair_eval}",
+                          "engine::eval::pawn_structure::{eval, eval_passed_pawns, calculate_passed_pawn_bonus, is_passed}", "engine::eval::mobility_and_king_safety::eval",
+                          "engine::eval::{eval, absolute_eval, absolute_eval_with_trace}, Eval::from_white_eval",
+                          "parameter tables: piece-square tables, passed-pawn masks and table as produced by the real init() of this tree (native dump); mobility/king-safety "
+                          "tables are compile-time constants of the crate"],
+    "stubs": ["six table look-ups -> geometry (C07) in the mobility and whole-evaluation harnesses"],
+    "bounds": ["blend: ALL i16 (mg, eg) pairs that can be packed, phase 0..88", "piece-square / phase / bishop-pair / passed-pawn terms: any valid position (reachable material for the "
+               "piece-square term, <= 8 pawns a side for the pawn term), 64-square loops fully unwound",
+               "mobility term and whole evaluation: officers per kind and colour <= 1 (quick) / 2 (thorough) because the term loops over them"],
+    "outside": ["boundedness |eval| < 31900 for material beyond the whole-evaluation harness's bound (e.g. nine queens a side) - only the piece-square term's halves are shown "
+                "to stay inside i16 for all reachable material"],
+    "assumptions": ["validity predicate of harness/verif/pos.rs; mirror = colour swap + rank flip on the oracle's bitboards"],
+    "trusted_base": ["kani 0.68.0", "cbmc 6.11.0", "cadical", "C07"],
+    "explanation": "Blend kernel over all inputs; per-term antisymmetry under mirroring on symbolic boards; whole evaluation on bounded material.",
 }
 MANIFEST = {
-    "text": "placeholder",
-    "note": "placeholder",
+    "text": "Bounded model checking: (1) for_phase lies between its middlegame and endgame inputs for ALL packable pairs and every phase 0..88 (weights never "
+            "negative), packing round-trips, packed negation/addition act half-wise; (2) per term on fully symbolic valid positions with the real parameter tables: "
+            "term(mirror(P)) == -term(P) for the piece-square+material term (any reachable material, halves stay inside i16 with overflow checks on), the bishop-pair "
+            "term, the passed-pawn term (<= 8 pawns a side), the game-phase counter, and - officers bounded - the mobility/king-safety term; (3) the whole "
+            "evaluation from the mover's view equals that of the mirrored position and lies strictly inside the non-mate band on bounded material.",
+    "note": "Mobility term and whole evaluation only for <= 1 (quick) / 2 (thorough) officers per kind and colour; boundedness for extreme material shown per term (piece-square) only.",
     "design_ref": "DESIGN.md s.4 C16",
 }
+DUMP = ["PST", "PP"]
+MODULES = ["geom", "pos", "stubs", "c16"]
+
+
+def inst(kind, k, pawns=0):
+    if kind == "mobility":
+        name = f"c16_sym_mobility_k{k}"
+        body = f"c16::sym_mobility({k});"
+    else:
+        name = f"c16_total_k{k}p{pawns}"
+        body = f"c16::total({k}, {pawns});"
+    attrs = ["#[kani::proof]", f"#[kani::unwind({66 if kind == 'total' else max(k, 7) + 2})]"] + [f"#[kani::stub({a}, {b})]" for a, b in GEOM_STUBS]
+    return name, "\n".join(attrs) + f"\npub fn {name}() {{ {body} }}\n"
 
 
 def jobs(tier, seed):
-    return [
+    k = 2 if tier == "thorough" else 1
+    t = 7200 if tier == "thorough" else 2400
+    js = [
         Job("c16_blend", "for_phase(mg, eg, phase) lies between mg and eg for all pairs and phases 0..88", timeout=900, min_covers=2),
         Job("c16_pack", "PhasedEval::new/midgame/endgame round trip for all packable pairs", timeout=300),
         Job("c16_neg_add", "packed negation / addition / subtraction act half-wise", timeout=300),
+        Job("c16_sym_pst", "piece-square+material term antisymmetric under mirroring, any reachable material, no overflow", timeout=t, mem_gb=24, witness=False),
+        Job("c16_sym_phase", "game phase colour-blind and equal to 1/1/2/4 per N/B/R/Q, any valid position", timeout=t, mem_gb=16, witness=False, checks="functional"),
+        Job("c16_sym_material", "bishop-pair term antisymmetric under mirroring", timeout=900, witness=False, checks="functional"),
+        Job("c16_sym_pawns", "passed-pawn term antisymmetric under mirroring, <= 8 pawns a side", timeout=t, mem_gb=24, witness=False, checks="functional"),
     ]
+    n, src = inst("mobility", k)
+    js.append(Job(n, f"mobility/king-safety term antisymmetric under mirroring, <= {k} officers per kind and colour", gen=src, timeout=t, mem_gb=24, witness=False,
+                  checks="functional", params={"per_kind": k}))
+    n, src = inst("total", k, 2 if tier != "thorough" else 4)
+    js.append(Job(n, f"eval(mirror(P)) == eval(P) from the mover's view, inside the non-mate band, <= {k} officers per kind and colour", gen=src, timeout=t, mem_gb=24,
+                  witness=False, params={"per_kind": k}))
+    return js
 
 
 def decode(job, vals):
-    return {"any_values": [int.from_bytes(bytes(v), "little", signed=True) for v in vals[:8]]}
+    return None
